@@ -424,6 +424,9 @@ class Interp:
                 return Comp()
         if name == "len":
             return Const(None)
+        if args and all(isinstance(a, Box) for a in args) and isinstance(fn, ast.Name):
+            # a helper applied to the box alone cannot depend on where the atoms are
+            return Box()
         if name == "range":
             raise Undecidable("range outside a for statement")
         raise Undecidable(f"call of {name}()")
